@@ -15,6 +15,7 @@
 import PydapModel.Proxy
 import PydapModel.CacheKey
 import Proofs.Proxy
+import Proofs.ProxySess
 import Proofs.CacheKey
 import PydapModel.Cache
 import Proofs.Cache
@@ -78,6 +79,36 @@ theorem C18_cache_key (orig : List Char → List Char) (horig : ∀ a b, orig a 
          (r1.host = earthdataHost ∧ r2.host = earthdataHost ∧
             ∃ coll, findCollection r1.path = some coll ∧ findCollection r2.path = some coll))) :=
   cacheKey_collide orig horig shared base r1 r2 h
+
+/-- **The clause as the property words it, off the Earthdata host (round 7)**: when the first request is not on
+    `opendap.earthdata.nasa.gov`, equal keys mean the same URL, or the same declared shared constraint with the same
+    scheme and host and BOTH requests under the declared common base — nothing else.  The guard is exact:
+    `C18_cache_key_earthdata_refuted`. -/
+theorem C18_cache_key_strict (orig : List Char → List Char) (horig : ∀ a b, orig a = orig b → a = b)
+    (shared : List (List Char)) (base : Option Base) (r1 r2 : CK.Req) (hne : r1.host ≠ earthdataHost)
+    (h : customKey orig shared base r1 = customKey orig shared base r2) :
+    r1.url = r2.url ∨
+      (r1.ce = r2.ce ∧ ∃ c, r1.ce = some c ∧ c ∈ shared ∧ r1.scheme = r2.scheme ∧ r1.host = r2.host ∧
+        underBase base r1 = true ∧ underBase base r2 = true) := by
+  rcases C18_cache_key orig horig shared base r1 r2 h with e | ⟨hce, c, hc, hin, hs, hh, hu | ⟨he, _⟩⟩
+  · exact Or.inl e
+  · exact Or.inr ⟨hce, c, hc, hin, hs, hh, hu⟩
+  · exact absurd he hne
+
+/-- **On the Earthdata host the property's wording does not hold of the code** (`C18_cache_key` carries the third
+    disjunct for this reason): two granules of one provider/collection share an entry for a declared constraint although
+    NO base was declared (or neither lies under it) — the Earthdata branch of `custom_create_key` groups by
+    `/providers/P/collections/C`, whatever `compute_base_url_prefix` gave.  Recorded as the documented Earthdata grouping
+    (design_notes/C18.md, table, row "cache entry"), replayed on the real `custom_create_key` by props/c18_cachekey.py. -/
+theorem C18_cache_key_earthdata_refuted :
+    ¬ (∀ (shared : List (List Char)) (base : Option Base) (r1 r2 : CK.Req),
+        customKey id shared base r1 = customKey id shared base r2 →
+        r1.url = r2.url ∨ (underBase base r1 = true ∧ underBase base r2 = true)) := by
+  intro h
+  have := h [exCe] none (exReq "opendap.earthdata.nasa.gov" "/providers/P/collections/C2/granules/g3")
+    (exReq "opendap.earthdata.nasa.gov" "/providers/P/collections/C2/granules/g4") (by decide)
+  revert this
+  decide
 
 /-- "under the base" is containment on path-segment boundaries on the base's host -/
 theorem C18_under_base_segment (b : Base) (r : CK.Req) :
@@ -157,6 +188,43 @@ theorem C18_cache_transparent_customKey {ρ : Type} (orig : List Char → List C
   (C18_cache_transparent_consolidated (customKey orig shared base) (·.url) (SharedDim shared base) server (· ∈ urls)
     (fun r1 r2 _ _ hk => C18_cache_key orig horig shared base r1 r2 hk)
     (fun r1 r2 h1 h2 hs => hshared r1 h1 r2 h2 hs) (fun r1 r2 h1 h2 e => hfun r1 h1 r2 h2 e) [] (C18_cache_inv_empty _ _ _) urls (fun _ h => h)).1
+
+/-- **The requests of a history do not depend on the session (round 7)**: two datasets opened from the same URL with
+    sessions `σ` and `τ` (plain, caching, caching with consolidated keys, none) and taken through the same history of
+    derivations, copies and reads issue the same requests in the same order, and hold the same objects up to the
+    session they carry.  Proof: every event commutes with relabelling the sessions (`Proofs/ProxySess.lean`, `re_step`;
+    it fails for the pre-13350a5 `__copy__`, which wrote `None`). -/
+theorem C18_requests_any_session (σ τ : Sess) (b : Name) (bs : List Name) (n : Name) (keys : List Name)
+    (arrays : List (Name × List Nat × Bool)) (evs : List Ev) :
+    (run (openHeap b bs τ n keys arrays) evs).log.map (·.2) = (run (openHeap b bs σ n keys arrays) evs).log.map (·.2) ∧
+    (run (openHeap b bs τ n keys arrays) evs).objs = (run (openHeap b bs σ n keys arrays) evs).objs.map (reObj τ) :=
+  ⟨(run_requests_any_session σ τ b bs n keys arrays evs).1, (run_requests_any_session σ τ b bs n keys arrays evs).2.1⟩
+
+/-- **The clauses together, for a read history of an opened dataset (round 7)**: take any history of derivations,
+    copies, reads, array / DAP4 reads, grid reads and server-function calls; run it on a dataset opened with a caching
+    session `c` and on one opened with a plain session `p`.  Then (1) every GET of the first goes through `c` and every
+    GET of the second through `p` — never an anonymous session —, (2) both issue the same requests, and (3) when the
+    key function of `c` tells the requests of the history apart (the unpatched `create_key`), the answers obtained
+    through the cache, request by request from the empty store, are the answers the plain session obtains.  `server` is
+    any function of the request.  What this does not say: the history is open-loop (in the heap model the requests are
+    determined by the events, not by earlier answers); consolidated keys need `hshared` (`C18_cache_transparent_customKey`
+    on `CK.Req`; the heap model's `Req` is the parsed request, the key model's the URL parts — the two are related only
+    by the harness). -/
+theorem C18_history_session_and_cache {κ ρ : Type} [DecidableEq κ] (b : Name) (bs : List Name) (c p : Nat) (n : Name)
+    (keys : List Name) (arrays : List (Name × List Nat × Bool)) (evs : List Ev)
+    (key : Proxy.Req → κ) (server : Proxy.Req → ρ)
+    (hinj : ∀ q1 ∈ (run (openHeap b bs (some c) n keys arrays) evs).log.map (·.2),
+            ∀ q2 ∈ (run (openHeap b bs (some c) n keys arrays) evs).log.map (·.2), key q1 = key q2 → q1 = q2) :
+    (∀ e ∈ (run (openHeap b bs (some c) n keys arrays) evs).log, e.1 = some c) ∧
+    (∀ e ∈ (run (openHeap b bs (some p) n keys arrays) evs).log, e.1 = some p) ∧
+    (run (openHeap b bs (some c) n keys arrays) evs).log.map (·.2)
+      = (run (openHeap b bs (some p) n keys arrays) evs).log.map (·.2) ∧
+    (runCached key server [] ((run (openHeap b bs (some c) n keys arrays) evs).log.map (·.2))).1
+      = runPlain server ((run (openHeap b bs (some p) n keys arrays) evs).log.map (·.2)) := by
+  have hreq := (C18_requests_any_session (some p) (some c) b bs n keys arrays evs).1
+  refine ⟨C18_session_from_open b bs c n keys arrays evs, C18_session_from_open b bs p n keys arrays evs, hreq, ?_⟩
+  rw [← hreq]
+  exact C18_cache_transparent_url key server _ hinj
 
 /-- Assumption (b) is necessary: two files under the base whose answers to the same shared-dimension
     constraint differ (the server echoes the URL) — the second read through the consolidated cache returns the
@@ -393,6 +461,21 @@ example : (run (openHeap ['u'] [] (some 3) ['s'] [['i']] [(['a'], [2], true)])
     [.aget 1 [Idx.int 0], .fattr 2 ['m'], .fcall 3 ['a'], .rget 4 false, .rget 4 true, .rget 4 true]).log.map (·.1)
     = [some 3, some 3, some 3, some 3] := by decide
 example : underBase (some exBase) exInside = true ∧ underBase (some exBase) exSibling = false := by decide
+/-- `C18_cache_key_strict` is not vacuous: two different requests under the base, off the Earthdata host, share a key -/
+example : exInside.host ≠ earthdataHost ∧ exInside.url ≠ (exReq "data.example.org" "/data/set/sub/b.nc.dap").url ∧
+    customKey id [exCe] (some exBase) exInside = customKey id [exCe] (some exBase) (exReq "data.example.org" "/data/set/sub/b.nc.dap") := by
+  decide
+/-- `C18_history_session_and_cache` on a history with a repeated read (a hit): hypotheses hold with the identity key -/
+example : (runCached (fun q : Proxy.Req => q) (fun q => q.ids)
+      [] ((run (openHeap ['u'] [] (some 3) ['s'] [['i']] [(['a'], [2], true)]) [.aget 1 [Idx.int 0], .iter 0, .aget 1 [Idx.int 0]]).log.map (·.2))).1
+    = runPlain (fun q => q.ids) ((run (openHeap ['u'] [] (some 4) ['s'] [['i']] [(['a'], [2], true)]) [.aget 1 [Idx.int 0], .iter 0, .aget 1 [Idx.int 0]]).log.map (·.2)) :=
+  (C18_history_session_and_cache ['u'] [] 3 4 ['s'] [['i']] [(['a'], [2], true)] _ _ _ (fun _ _ _ _ h => h)).2.2.2
+/-- the relabelling is not the identity: the objects of the two runs differ in the session, the requests do not; and the
+    old `__copy__` does not commute with it (a filtered sequence was read through no session whatever the dataset's) -/
+example : (run (openHeap ['u'] [] (some 3) ['s'] [['i']] []) [.getitem 0 (.ce [['c']]), .iter 2]).log
+      ≠ (run (openHeap ['u'] [] (some 4) ['s'] [['i']] []) [.getitem 0 (.ce [['c']]), .iter 2]).log ∧
+    (runOld (openHeap ['u'] [] (some 3) ['s'] [['i']] []) [.getitem 0 (.ce [['c']]), .iter 2]).log
+      = (runOld (openHeap ['u'] [] (some 4) ['s'] [['i']] []) [.getitem 0 (.ce [['c']]), .iter 2]).log := by decide
 
 /-- a history with consolidated hits (second read: another file under the base; fourth: a repeat) and a
     sibling directory that is not shared; the server answers the shared constraint identically under the base -/
